@@ -45,6 +45,7 @@ func propC02(c *Ctx) {
 	c.ruleRulesEverywhere("C02-RULES-EVERYWHERE")
 	c.ruleDTOFieldsFilled("C02-DTO-FIELDS-FILLED")
 	c.ruleParamNotGated("C02-PARAM-NOT-GATED")
+	c.ruleWalkEveryContainer("C02-WALK-EVERY-CONTAINER")
 	c.rulePlaceWhenComplete("C02-PLACE-WHEN-COMPLETE")
 	c.ruleLoopsCoverAll("C02-LOOPS-COVER-ALL")
 	if m := c.E1Base(); m != nil {
